@@ -170,24 +170,38 @@ Proof.
   - intros h [].
 Qed.
 
-(** with one subsystem the system-level loop returns the subsystem's answer *)
-Lemma sys_next_single sel ss t incl : sys_next S sel [ss] t incl = sub_next S (sel ss) t incl.
+(** with one subsystem the system-level loop returns the subsystem's answer (either variant) *)
+Lemma sys_next_single cf sel ss t incl : sys_next S cf sel [ss] t incl = sub_next S (sel ss) t incl.
 Proof.
   unfold sys_next. simpl. unfold sys_next_step. destruct (sub_next S (sel ss) t incl) as [time sids].
   assert (ile time None = true) by (destruct time; reflexivity). rewrite H.
-  assert (ilt time time = false). { apply ilt_false. destruct time; simpl; auto. lra. } rewrite H0. reflexivity.
+  assert (ilt time time = false). { apply ilt_false. destruct time; simpl; auto. lra. }
+  destruct cf.
+  - destruct (ilt time None); reflexivity.
+  - rewrite H0. reflexivity.
 Qed.
 
-(** System::Guts::calcTimeOfNextScheduledEventImpl with TWO subsystems: the ids of the first subsystem survive
-    although the second one has a strictly earlier event (the clear() is unreachable).  Witness: subsystem 0 has
-    a handler (id 0) due at t=5, subsystem 1 a handler (id 1) due at t=3. *)
+(** System::Guts::calcTimeOfNextScheduledEventImpl AS WRITTEN, with TWO subsystems: the ids of the first subsystem
+    survive although the second one has a strictly earlier event (the clear() is unreachable).  Witness: the default
+    subsystem has a handler (id 0) due at t=1/2, a second subsystem an event (id 1) due at t=5/16. *)
 Definition w_h (id:nat) (at_:Q) : shandler :=
-  {| h_id := id; h_next := fun _ _ => Some at_; h_act := fun s _ => (s, false, false) |}.
+  {| h_id := id; h_next := fun t incl => if qlt t at_ || (incl && qeq at_ t) then Some at_ else None;
+     h_act := fun s _ => (s, false, false) |}.
 Definition w_subs : list subsystem :=
-  [ {| ss_handlers := [w_h 0 5]; ss_reporters := [] |}; {| ss_handlers := [w_h 1 3]; ss_reporters := [] |} ].
+  [ {| ss_handlers := [w_h 0 (1#2)]; ss_reporters := [] |}; {| ss_handlers := [w_h 1 (5#16)]; ss_reporters := [] |} ].
 Lemma sys_next_two_subsystems_refuted :
-  sys_next S ss_handlers w_subs 0 true = (Some 3, [0%nat; 1%nat]).
-Proof. reflexivity. Qed.
+  sys_next S false ss_handlers w_subs 0 true = (Some (5#16), [0%nat; 1%nat]) /\
+  sys_next S false ss_handlers w_subs (5#16) false = (Some (1#2), [0%nat]) /\
+  sys_next S true ss_handlers w_subs 0 true = (Some (5#16), [1%nat]).
+Proof. repeat split; reflexivity. Qed.
+(** ... and a handler with no further event (next time +Infinity) is listed for every later event of another
+    subsystem: default handler due at 5/16 only, second subsystem's event at 1/2, asked at t = 5/16 *)
+Definition w_subs2 : list subsystem :=
+  [ {| ss_handlers := [w_h 0 (5#16)]; ss_reporters := [] |}; {| ss_handlers := [w_h 1 (1#2)]; ss_reporters := [] |} ].
+Lemma sys_next_exhausted_handler_refuted :
+  sys_next S false ss_handlers w_subs2 (5#16) false = (Some (1#2), [0%nat; 1%nat]) /\
+  sys_next S true ss_handlers w_subs2 (5#16) false = (Some (1#2), [1%nat]).
+Proof. split; reflexivity. Qed.
 End TSP.
 
 (** ------------------------------------------------------------------------------------------
@@ -197,10 +211,11 @@ Variable S : Type.
 Variable ss : subsystem S.
 Variable thandlers : list (thandler S).
 Variable flow : S -> Q -> Q -> S.
+Variable cf : bool.                       (* either variant of the System-level loop *)
 Notation subs := [ss].
-Notation LOOP := (ts_loop S subs thandlers flow).
+Notation LOOP := (ts_loop S cf subs thandlers flow).
 Notation BODY := (ts_body S subs thandlers flow).
-Notation MKUSE := (mk_use S subs).
+Notation MKUSE := (mk_use S cf subs).
 
 (** handler and reporter ids are distinct (they are EventIds handed out by the System) *)
 Definition ids_disjoint : Prop := forall h r, In h (ss_handlers ss) -> In r (ss_reporters ss) -> h_id h <> h_id r.
@@ -386,7 +401,7 @@ Qed.
 (** MAIN (scheduled handlers): every call of a scheduled handler made by TimeStepper::stepTo happens at a time equal
     to that handler's own getNextEventTime, evaluated at the time the integrator was started from *)
 Lemma scheduled_called_exactly_at_time reportAll time s orc st s' rest log uses : ids_disjoint ->
-  ts_stepTo S subs thandlers flow reportAll time s orc = TSRet S st s' rest log uses ->
+  ts_stepTo S cf subs thandlers flow reportAll time s orc = TSRet S st s' rest log uses ->
   (forall u, In u uses -> use_ok u) ->
   forall k, In k log -> k_cause k = CScheduled ->
   exists h u, In h (ss_handlers ss) /\ h_id h = k_id k /\ In u uses /\
@@ -399,7 +414,7 @@ Proof.
 Qed.
 
 Lemma reporters_called_exactly_at_time reportAll time s orc st s' rest log uses : ids_disjoint ->
-  ts_stepTo S subs thandlers flow reportAll time s orc = TSRet S st s' rest log uses ->
+  ts_stepTo S cf subs thandlers flow reportAll time s orc = TSRet S st s' rest log uses ->
   (forall u, In u uses -> use_ok u) ->
   forall k, In k log -> k_cause k = CReport ->
   exists r u, In r (ss_reporters ss) /\ h_id r = k_id k /\ In u uses /\
